@@ -111,6 +111,10 @@ class StartStageHandler(
                         stage.id,
                         "canceled" if stage.execution.is_canceled else stage.execution.status,
                     )
+                    # ... but a cancel that only set the flag (WorkflowStore.cancel()
+                    # called directly) produced no fan-out: finish it for this stage here.
+                    if stage.execution.is_canceled:
+                        self._finish_cancel_for(stage, message, "StartStage")
                     return
 
                 # Get upstream stages from repository (returns empty list if none)
